@@ -2700,7 +2700,41 @@ func (in *Interp) countedRange(x *ast.ForStmt) *ast.RangeStmt {
 	if !ok || be.Op != token.LSS || identObj(in.info, be.X) != io || io == nil {
 		return nil
 	}
-	lc, ok := unparen(be.Y).(*ast.CallExpr)
+	boundE := unparen(be.Y)
+	hoistedAt := token.NoPos
+	// the bound hoisted into a local: `count := len(S)` bound once, S untouched from there to the end of the loop
+	if bid, ok := boundE.(*ast.Ident); ok {
+		if bo, isVar := in.info.Uses[bid].(*types.Var); isVar && in.fi.Decl.Body != nil {
+			var def ast.Expr
+			binds := 0
+			ast.Inspect(in.fi.Decl.Body, func(n ast.Node) bool {
+				switch y := n.(type) {
+				case *ast.AssignStmt:
+					for i, l := range y.Lhs {
+						if identObj(in.info, l) == bo {
+							binds++
+							if y.Tok == token.DEFINE && len(y.Lhs) == len(y.Rhs) {
+								def, hoistedAt = y.Rhs[i], y.Pos()
+							}
+						}
+					}
+				case *ast.IncDecStmt:
+					if identObj(in.info, y.X) == bo {
+						binds += 2
+					}
+				case *ast.UnaryExpr:
+					if y.Op == token.AND && identObj(in.info, y.X) == bo {
+						binds += 2
+					}
+				}
+				return true
+			})
+			if binds == 1 && def != nil {
+				boundE = unparen(def)
+			}
+		}
+	}
+	lc, ok := boundE.(*ast.CallExpr)
 	if !ok || len(lc.Args) != 1 {
 		return nil
 	}
@@ -2726,6 +2760,19 @@ func (in *Interp) countedRange(x *ast.ForStmt) *ast.RangeStmt {
 	}
 	sText := types.ExprString(S)
 	bad := false
+	if hoistedAt != token.NoPos {
+		// between the hoisted bound and the loop the list keeps its length
+		ast.Inspect(in.fi.Decl.Body, func(n ast.Node) bool {
+			if y, ok := n.(*ast.AssignStmt); ok && y.Pos() > hoistedAt && y.Pos() < x.Pos() {
+				for _, l := range y.Lhs {
+					if ls := types.ExprString(unparen(l)); ls == sText || strings.HasPrefix(sText, ls+".") {
+						bad = true
+					}
+				}
+			}
+			return true
+		})
+	}
 	ast.Inspect(x.Body, func(n ast.Node) bool {
 		switch y := n.(type) {
 		case *ast.AssignStmt:
